@@ -450,6 +450,72 @@ theorem builders_agree (sys : Sys) (b pn pn' : Bool) (o₁ : OdeSys) (o₂ : Ode
   rw [lookup_congr hv, hread₂] at hread₁
   exact (Option.some.inj hread₁).symm
 
+/-! ### `Expr`-valued substitutions, `constants=`, user-supplied symbols (general entry points) -/
+
+/-- **The general model of `get_odesys` extends the plain one**: without `Expr`-valued substitutions and without a `constants`
+    object, `buildRhsG` (which the correspondence check runs) is `buildRhs`, so every theorem above speaks about it. -/
+theorem general_builder_is_plain (g : GCfg) (sys : Sys) (ha : g.active = []) (hc : g.consts = []) :
+    buildRhsG g sys = buildRhs g.toCfg sys :=
+  buildRhsG_plain g sys ha hc
+
+/-- **`get_odesys` with `Expr`-valued substitutions and `constants=`: still `Nᵀ·r`.**  Every accepted build has the substance
+    keys as names, one expression per substance, the mass-action rates behind `rate_exprs_cb`, and right-hand sides that
+    evaluate to `Σ_r netOf r s · rateVal vars env r` (+ feed), `vars = mkVarsG g sys` being the `variables` dict after the
+    active substitutions were evaluated in order and the passive values written (internal form; what an actively
+    substituted entry is worth is `active_substitution_means_expression`). -/
+theorem rhsG_is_NT_r (g : GCfg) (sys : Sys) (o : OdeSys) (hnd : sys.subst.Nodup) (h : buildRhsG g sys = .ok o)
+    (env : String → R) :
+    ∃ vars, mkVarsG g sys = some vars ∧ o.names = sys.subst ∧ o.exprs.length = sys.subst.length ∧
+      (∀ r ∈ sys.rxns, (resolve vars r.param).isSome = true) ∧
+      o.rateExprs.map (ev env) = sys.rxns.map (rateVal vars env) ∧
+      ∀ (i : ℕ) (s : String), sys.subst[i]? = some s → ∃ e, o.exprs[i]? = some e ∧
+        ev env e = (sys.rxns.map fun r => (netOf r s : R) * rateVal vars env r).sum +
+          (if g.cstr = true then cval vars env "feedratio" * (cval vars env ("fc_" ++ s) - cval vars env s) else 0) :=
+  rhsG_is_NT_r_internal g sys o hnd h env
+
+/-- **An active substitution means its expression.**  (i) Evaluating `Constant / Symbol / + / *` on the `variables` dict and
+    then binding the symbols gives the value of the expression at the current values of the variables it reads.
+    (ii) In the final `variables` (after later active substitutions and the passive values, all with other keys) the entry of
+    the substituted key is that value, taken at the moment the substitution was evaluated: later entries never change it. -/
+theorem active_substitution_means_expression (env : String → R) :
+    (∀ (vars : List (String × Poly String)) (e : PExpr) (p : Poly String), evalPExpr vars e = some p →
+      ev env p = pexprVal (cval vars env) e) ∧
+    (∀ (d₀ : List (String × Poly String)) (pre post : List (String × PExpr)) (k : String) (e : PExpr)
+      (passive : List (String × ℚ)) (d' : List (String × Poly String)),
+      applyActive d₀ (pre ++ (k, e) :: post) = some d' → k ∉ dkeys post → k ∉ dkeys passive →
+      ∃ d, applyActive d₀ pre = some d ∧ (∃ p, evalPExpr d e = some p) ∧
+        cval (applyPassive d' passive) env k = pexprVal (cval d env) e) :=
+  ⟨fun vars e p h => ev_evalPExpr vars env e p h,
+   fun d₀ pre post k e passive d' h h1 h2 => active_entry_value d₀ pre post k e passive d' h h1 h2 env⟩
+
+/-- **`constants=` is a passive substitution of parameter keys**: the build with a `constants` object is literally (same
+    refusal or same result) the build whose `substitutions` are extended by `{pk: constants.pk}` for the unsubstituted
+    parameter keys the object provides; all statements about passive substitutions (`substitution_invariance`,
+    `rhs_is_kinetic_model` with `kOf`/`pval`) therefore cover it. -/
+theorem constants_are_passive_substitutions (g : GCfg) (sys : Sys) (ha : g.active = [])
+    (hukC : ∀ uk ∈ oriUk sys.rxns, uk ∉ cstrKeys (cstrOf g.cstr sys.subst)) :
+    buildRhsG g sys = buildRhsG (constsAsSubs g sys) sys ∧ (constsAsSubs g sys).consts = [] ∧
+      (constsAsSubs g sys).subs = g.subs ++ usedConsts g sys.subst :=
+  ⟨constants_are_substitutions g sys ha hukC, rfl, rfl⟩
+
+/-- **User-supplied `substance_symbols` / `parameter_symbols` of `_create_odesys`**: wrong substance keys → ValueError; a
+    `parameter_symbols` that is no `OrderedDict` → ValueError; neither given → the default builder; an ordered
+    `parameter_symbols` → its keys are the parameter names, in its order, and the right-hand sides are `Nᵀ·r`. -/
+theorem user_symbols (u : UCfg') (sys : Sys) (hnd : sys.subst.Nodup) (env : String → R) :
+    (∀ ks, u.substKeys = some ks → ks ≠ sys.subst → buildRhs'U u sys = .error .valueError) ∧
+    (∀ keys, (u.substKeys = none ∨ u.substKeys = some sys.subst) → u.paramKeys = some (false, keys) →
+      buildRhs'U u sys = .error .valueError) ∧
+    ((u.substKeys = none ∨ u.substKeys = some sys.subst) → u.paramKeys = none → buildRhs'U u sys = buildRhs' u.cfg sys) ∧
+    (∀ keys o, u.paramKeys = some (true, keys) → buildRhs'U u sys = .ok o →
+      o.names = sys.subst ∧ o.paramNames = keys ∧ o.exprs.length = sys.subst.length ∧
+      ∀ (i : ℕ) (s : String), sys.subst[i]? = some s → ∃ e, o.exprs[i]? = some e ∧
+        ev env e = (sys.rxns.map fun r => (netOf r s : R) * rateVal (mkVars sys.subst keys u.cfg.paramExprs) env r).sum +
+          (if u.cfg.cstr = true then
+             cval (mkVars sys.subst keys u.cfg.paramExprs) env "feedratio" *
+               (cval (mkVars sys.subst keys u.cfg.paramExprs) env ("fc_" ++ s) - cval (mkVars sys.subst keys u.cfg.paramExprs) env s)
+           else 0)) :=
+  user_symbols_spec u sys hnd env
+
 /-! ### The precondition on shared keys is necessary, and the hypotheses are satisfiable -/
 
 /-- `A -> B` with `MassAction([5], unique_keys=['k'])` and `B -> A` with `MassAction([7], unique_keys=['k'])`: the two
@@ -542,5 +608,30 @@ example : noCapture exSys [] false = true ∧ noCapture exSys ["k3", "k4", "feed
 example : noCapture captureSys [] false = false ∧
     noCapture { subst := ["A", "K"], rxns := [{ reac := [("A", 1)], prod := [("K", 1)], param := .named "K" 3 }] } ["K"] true = false := by
   constructor <;> decide +kernel
+
+/-- `k3 := 1/2·q` (a new free parameter `q`) and `k4 := k3 + 2` (sees the entry written just before) -/
+def exActive : GCfg :=
+  { includeParams := false, active := [("k3", .mul (.const (1/2)) (.sym "q")), ("k4", .add (.sym "k3") (.const 2))] }
+
+/-- an accepted build with active substitutions: `q` is registered before the reactions' keys, `d[D]/dt = q/2·B − (q/2 + 2)·D` -/
+example : ∃ o, buildRhsG exActive exSys = .ok o ∧ o.paramNames = ["q", "k2"] ∧ o.unique = [("q", none), ("k2", some 5)] ∧
+    o.exprs[3]? = some ⟨[([("B", 1), ("q", 1)], 1/2), ([("D", 1)], -2), ([("D", 1), ("q", 1)], -1/2)]⟩ := by
+  refine ⟨_, rfl, ?_, ?_, ?_⟩ <;> decide +kernel
+
+/-- the tank's flow and one feed concentration come from the `constants` object -/
+def exConsts : GCfg :=
+  { includeParams := false, cstr := true, subs := [("k3", 7), ("k4", 2)],
+    consts := [("feedratio", 1/2), ("fc_B", 3), ("unrelated", 9)] }
+
+/-- `constants=` accepted; refusals: an active substitution reading an undefined symbol with inlined constants (KeyError), user
+    symbols with the wrong substance order and a plain-dict `parameter_symbols` (ValueError); an ordered `parameter_symbols`
+    fixes the order of the parameter names -/
+example : (∃ o, buildRhsG exConsts exSys = .ok o ∧
+      o.paramKeys = ["fc_A", "fc_C", "fc_D"] ∧ o.paramNames = ["fc_A", "fc_C", "fc_D", "k2"]) ∧
+    buildRhsG { active := [("k3", .sym "q")], subs := [("k4", 2)] } exSys = .error .keyError ∧
+    buildRhs'U { substKeys := some ["B", "A", "C", "D"] } exSys = .error .valueError ∧
+    buildRhs'U { paramKeys := some (false, ["k2", "k3", "k4"]) } exSys = .error .valueError ∧
+    (∃ o, buildRhs'U { paramKeys := some (true, ["k4", "k3", "k2"]) } exSys = .ok o ∧ o.paramNames = ["k4", "k3", "k2"]) := by
+  refine ⟨⟨_, rfl, ?_, ?_⟩, rfl, rfl, rfl, ⟨_, rfl, rfl⟩⟩ <;> decide +kernel
 
 end ChemModel.C04
